@@ -272,7 +272,11 @@ def build_leg():
 def proof_leg(prop: str):
     """facts about Props/<prop>*.v (e.g. C02.v and C02Refine.v): theorem count, compiled, gate, Print Assumptions output"""
     pdir = COQ_DIR / "theories" / "Props"
-    files = sorted(f for f in pdir.glob(f"{prop}*.v") if re.fullmatch(prop + r"[A-Za-z]*", f.stem))
+    listed_lines = {ln.strip() for ln in (COQ_DIR / "_CoqProject").read_text().splitlines() if not ln.strip().startswith("#")}
+    # Props/<prop>.v itself is mandatory; further statement files Props/<prop><Suffix>.v count once they are part of the
+    # build (files lying in the directory that _CoqProject does not list are work in progress, not the development)
+    files = sorted(f for f in pdir.glob(f"{prop}*.v") if re.fullmatch(prop + r"[A-Za-z]*", f.stem)
+                   and (f.stem == prop or f"theories/Props/{f.name}" in listed_lines))
     info = {"file": ", ".join(str(f) for f in files) or str(pdir / f"{prop}.v"), "obligations": 0, "discharged": 0, "gate_hits": [],
             "assumptions": "", "theorems": [], "ok": False, "problems": []}
     if not files:
@@ -335,8 +339,9 @@ def proof_leg(prop: str):
 def coqchk_leg(prop: str, timeout=2400):
     """independent re-check of the property's compiled closure with coqchk (thorough tier)"""
     try:
+        listed_lines = {ln.strip() for ln in (COQ_DIR / "_CoqProject").read_text().splitlines() if not ln.strip().startswith("#")}
         mods = [f"ArchSim.Props.{f.stem}" for f in sorted((COQ_DIR / "theories" / "Props").glob(f"{prop}*.v"))
-                if re.fullmatch(prop + r"[A-Za-z]*", f.stem)]
+                if re.fullmatch(prop + r"[A-Za-z]*", f.stem) and (f.stem == prop or f"theories/Props/{f.name}" in listed_lines)]
         r = subprocess.run(["coqchk", "-silent", "-o", "-Q", "theories", "ArchSim"] + mods,
                            cwd=str(COQ_DIR), capture_output=True, text=True, timeout=timeout)
         out = (r.stdout + r.stderr)
